@@ -60,7 +60,7 @@ CtxDefs(ctx, evf) ==
 
 \* other shapes of the older message: "many" - nine fields, so that the new indices have two digits;
 \* "empty" - a placeholder without fields, so that everything the newer peer sends is unknown
-ManyT(j) == CASE j % 3 = 1 -> P("int32") [] j % 3 = 2 -> P("string") [] OTHER -> P("bool")
+ManyT(j) == << P("int32"), P("string"), P("bool"), P("guid"), P("date"), P("float64"), A(P("byte")), A(P("string")), P("uint16") >>[j]
 ManyFields == [j \in 1..9 |-> MFld(j, "a" \o ToString(j), ManyT(j), FALSE)]
 EvFields1V(var) == IF var = "many" THEN ManyFields ELSE <<>>
 EvFields2V(var, nt, two) ==
@@ -85,12 +85,20 @@ S2Of(p) == NewOf(p).sup \o CtxDefs(CtxOfP(p), IF IsAB(p) THEN EvFields2(NewOf(p)
 
 S1 == S1Of(pi)
 S2 == S2Of(pi)
-V == Vals(S2, RootT)[vi]
+\* ... and, for the contexts that hold many instances of Ev, a value with 150 of them (every instance carries fields
+\* the older version has to skip)
+EvVals == Vals(S2, R("Ev"))
+ManyInstances ==
+  CASE CtxOfP(pi) = "array"    -> << << [i \in 1..150 |-> Cyc(EvVals, i)], <<7, 0, 0, 0>> >> >>
+    [] CtxOfP(pi) = "mapvalue" -> << << [i \in 1..150 |-> << <<i, 0, 0, 0>>, Cyc(EvVals, i) >>], <<7, 0, 0, 0>> >> >>
+    [] OTHER -> <<>>
+AllVals == Vals(S2, RootT) \o (IF TwoOf(pi) /\ ~DepOf(pi) THEN ManyInstances ELSE <<>>)
+V == AllVals[vi]
 E == Enc(S2, RootT, V)
 
 Init == pi = 0 /\ vi = 0
 Next == \/ pi = 0 /\ pi' \in 1..NPairs /\ UNCHANGED vi
-        \/ pi > 0 /\ vi = 0 /\ vi' \in 1..Len(Vals(S2, RootT)) /\ UNCHANGED pi
+        \/ pi > 0 /\ vi = 0 /\ vi' \in 1..Len(AllVals) /\ UNCHANGED pi
 IsCase == vi > 0
 
 -----------------------------------------------------------------------------
